@@ -93,7 +93,7 @@ def run(prop, tier, seed, modname=None):
             groups.setdefault(sig, []).append((r.get("cfg"), viol))
     reproduces = getattr(mod, "reproduces", None)
     for sig, items in sorted(groups.items()):
-        cands = [(c, vi) for c, vi in items if vi.get("info")][:4]
+        cands = [(c, vi) for c, vi in items if vi.get("info")][:getattr(mod, "MAX_REPLAYS", 4)]
         if not cands:
             v.unreproduced.append(dict(signature=sig, reason="no replay payload", example=items[0][1].get("name")))
             continue
@@ -116,8 +116,18 @@ def run(prop, tier, seed, modname=None):
                 confirmed = True
                 break
         if not confirmed:
-            v.unreproduced.append(dict(signature=sig, n=len(items), example=cands[0][1]["name"],
-                                       request=cands[0][1]["info"], real=resp[0]))
+            rec = dict(signature=sig, n=len(items), example=cands[0][1]["name"],
+                       request=cands[0][1]["info"], real=resp[0])
+            if getattr(mod, "UNREPRODUCED_IS_INCONCLUSIVE", False):
+                # models of uninterpreted functions / the rounding over-approximation need not be realisable:
+                # a candidate that does not reproduce on the real code is reported as undecided, never as a verdict
+                v.inconclusive.append(dict(kind="solver counterexample not reproduced on the real code", **rec))
+            else:
+                v.unreproduced.append(rec)
+    for r in results:
+        for u in r.get("unknowns", []):
+            v.inconclusive.append(dict(kind="solver answered unknown", cfg=r.get("cfg"), what=u))
+    v.inconclusive = v.inconclusive[:200]
     level = getattr(mod, "LEVEL", "model_checking")
     return v.finish(level=level, rule=getattr(mod, "RULE", None))
 
